@@ -35,6 +35,8 @@ V6 = "::1"
 CPORT = 5555          # canonical client port
 SPORT = 69            # canonical server port
 BINDS = ["::", V6, V4M]
+# other spellings of "all interfaces" (the bound socket reports "::" resp. "::ffff:0.0.0.0")
+WILD_SPELLINGS = ["0::0", "::0", "", "0:0:0:0:0:0:0:0", "::ffff:0.0.0.0"]
 
 SCRIPTS = {}          # request id -> list of (tag, accept)
 LOGS = {}             # request id -> list of events
@@ -51,6 +53,20 @@ class Ctx:
     def __init__(self, tag, name):
         self.tag = tag
         self.name = name
+
+
+RESULT_KINDS = ["ok", "bare404", "bare403", "bare500", "empty404", "404hdr", "404body"]
+
+
+def visible(kind, tag):
+    """what the client is to see from a handler result: b"<status>:<body unless it is http.server's error page>" """
+    if kind == "ok":
+        return b"200:" + tag
+    if kind.startswith("bare"):
+        return kind[4:].encode() + b":"
+    if kind in ("empty404", "404hdr"):
+        return b"404:"
+    return b"404:" + tag
 
 
 def _spec(index, name):
@@ -112,7 +128,17 @@ class RecHttp(HS.HttpRequestHandler):
         LOGS.setdefault(rid, []).append(
             ("handle", self.index, request_info.uri, _ctx(context), request_info.client_address,
              request_info.server_address, request_info.method, list(request_info.headers.items())))
-        return (http.HTTPStatus.OK, None, io.BytesIO(h[0].encode()))
+        kind = h[2] if len(h) > 2 else "ok"
+        tag = h[0].encode()
+        if kind == "ok":
+            return (http.HTTPStatus.OK, None, io.BytesIO(tag))
+        if kind in ("bare404", "bare403", "bare500"):
+            return (http.HTTPStatus(int(kind[4:])), None, None)
+        if kind == "empty404":
+            return (http.HTTPStatus.NOT_FOUND, {}, None)
+        if kind == "404hdr":
+            return (http.HTTPStatus.NOT_FOUND, {"X-Why": tag.decode()}, None)
+        return (http.HTTPStatus.NOT_FOUND, None, io.BytesIO(tag))          # "404body"
 
 
 def _ctx(c):
@@ -270,10 +296,10 @@ class C10(Check):
         self._seq = itertools.count(1)
 
     # -- cases
-    def netconfigs(self):
-        for bind in BINDS:
+    def netconfigs(self, spellings=False):
+        for bind in (WILD_SPELLINGS if spellings else BINDS):
             for fam in (4, 6):
-                if (bind == V6 and fam == 4) or (bind == V4M and fam == 6):
+                if (bind == V6 and fam == 4) or (bind in (V4M, "::ffff:0.0.0.0") and fam == 6):
                     continue
                 yield bind, fam
 
@@ -291,7 +317,8 @@ class C10(Check):
         hd = [("Host", "verif"), ("X-Verif-Id", str(rid))] + list(headers or [])
         return {"proto": proto, "bind": bind, "fam": fam, "pktinfo": pktinfo, "rid": rid, "name": name,
                 "mail": mail, "method": method, "headers": hd if proto in (1, 3) else [],
-                "handlers": [("h%d-%d" % (i, rid), bool(a)) for i, a in enumerate(handlers)]}
+                "handlers": [("h%d-%d" % (i, rid),) + ((bool(a[0]), a[1]) if isinstance(a, tuple) else (bool(a), "ok"))
+                             for i, a in enumerate(handlers)]}
 
     def gen(self, tier, rng):
         vectors = [v for n in range(0, MAXH + 1) for v in itertools.product([False, True], repeat=n)]
@@ -302,10 +329,23 @@ class C10(Check):
                     yield self.mk(0, bind, fam, pk, v, stem=b"boot/", tail=b"/a%20b%2Fc.cfg")
             for v in vectors:
                 yield self.mk(1, bind, fam, True, v, tail=b"/a%20b%2Fc?x=%2F&y=1", headers=[("X-Extra", "a:b=c%20d")])
+        # other spellings of the wildcard bind address: the handler must still see the address the client used
+        some = [(True,), (False, True), (False, False, True, True), ()]
+        for bind, fam in self.netconfigs(spellings=True):
+            for pk in (True, False):
+                for v in some:
+                    yield self.mk(0, bind, fam, pk, v, stem=b"w/", tail=b"/x")
+        # what handle() returns must not let a later handler be asked (HTTP): result kinds x later accepting handlers
+        for kind in RESULT_KINDS:
+            for later in ([], [(True, "ok")], [(False, "ok"), (True, "ok")], [(True, "bare404"), (True, "ok")]):
+                for first in ([], [(False, "ok")]):
+                    yield self.mk(1, "::", 6, True, first + [(True, kind)] + later, tail=b"/r")
+        yield self.mk(1, "::", 4, True, [(True, "bare404"), (True, "bare404"), (True, "404body")], tail=b"/r")
         # request names: leading slash or not, escapes, upper case, non-ASCII bytes (dropped by the packet decoder)
         tails = [b"", b"/", b"%2f", b"%2F%2e%2e", b"/..", b" with space", b"/\xc3\xa4\xff", b"/A.B", b"?q=1", b"#frag",
-                 b"/%00", b"/+plus"]
-        stems = [b"", b"/", b"%2f", b"a/", b"\xe9/"]
+                 b"/%00", b"/+plus", b"\\win\\path", b"/a\\b/c", b"/./x", b"//x", b"/x/", b"/UPPER/Case.CFG", b"/a%5Cb",
+                 b"/a;b=c", b"/~user", b"/a%25b", b"/tab\there"]
+        stems = [b"", b"/", b"%2f", b"a/", b"\xe9/", b"./", b"A\\", b"a//"]
         for bind, fam in self.netconfigs():
             for st in stems:
                 for tl in tails:
@@ -313,7 +353,7 @@ class C10(Check):
             yield self.mk(0, bind, fam, True, (True,), mail=True)
             yield self.mk(0, bind, fam, False, (False, True), mail=True)
             for tl in tails:
-                if b" " in tl or b"#" in tl:
+                if b" " in tl or b"#" in tl or b"\t" in tl:
                     continue
                 yield self.mk(1, bind, fam, True, (False, True, True), tail=tl.replace(b"\xff", b"%FF"))
             for m in ("GET", "HEAD", "POST", "PUT", "DELETE"):
@@ -329,7 +369,7 @@ class C10(Check):
             yield self.mk(3, bind, fam, True, (True,), headers=[("X-Verif", "v=1; w")])
         # random
         n = 150 if tier == "quick" else 2500
-        alphabet = b"abcXYZ019/%.-_~ +?&=\xe4\xff"
+        alphabet = b"abcXYZ019/%.-_~ +?&=\xe4\xff\\;"
         cfgs = list(self.netconfigs())
         for _ in range(n):
             bind, fam = rng.choice(cfgs)
@@ -342,6 +382,7 @@ class C10(Check):
                 stem = b""
                 hd = [("X-R%d" % i, "".join(rng.choice("abc:=%;, /") for _ in range(rng.randrange(1, 8))).strip() or "v")
                       for i in range(rng.randrange(0, 4))]
+                v = [(a, rng.choice(RESULT_KINDS) if rng.random() < 0.4 else "ok") for a in v]
                 yield self.mk(1, bind, fam, True, v, tail=tail, method=rng.choice(["GET", "POST", "DELETE"]), headers=hd)
             else:
                 yield self.mk(0, bind, fam, rng.random() < 0.6, v, stem=stem, tail=tail, mail=rng.random() < 0.03)
@@ -410,7 +451,12 @@ class C10(Check):
             content = rp[1]
         elif rp[0] == "http" and rp[1] == 200:
             content = rp[2]
-        if content is not None:
+        handled = [e[1] for e in o.get("log", []) if e[0] == "handle"]
+        if rp[0] == "http" and not filemode and handled:
+            # answered by a handler: which one is known from the call log, what the client saw from the response
+            body = rp[2] if rp[2].decode("latin-1") in o["tags"] else b""
+            rep = [1, handled[-1], b"%d:%s" % (rp[1], body)]
+        elif content is not None:
             if filemode:
                 info = self.parse_info(content, o)
                 rep = [1, 0, b""]
@@ -459,9 +505,9 @@ class C10(Check):
         sockname = [sn[0].encode(), SPORT] + list(sn[2:])
         client = [dst.encode(), CPORT, 0, 0]
         local = [dst.encode(), SPORT, 0, 0]
-        handlers = [[t.encode(), a] for t, a in c["handlers"]]
+        handlers = [[t.encode(), a, visible(k, t.encode()) if c["proto"] == 1 else t.encode()] for t, a, k in c["handlers"]]
         if c["proto"] in (2, 3):
-            handlers = [[b"", True]]
+            handlers = [[b"", True, b""]]
         return sx([c["proto"], False, bool(c["pktinfo"]), sockname,
                    [[True, raw + b"\x01\x00\x00\x00"]],
                    [[raw, socket.inet_ntop(socket.AF_INET6, raw).encode()]],
@@ -470,7 +516,7 @@ class C10(Check):
                    c["name"], bool(c["mail"]), handlers, self.canon(o)])
 
     def nontrivial(self, c, o):
-        v = tuple(a for _, a in c["handlers"])
+        v = tuple((a, k) for _, a, k in c["handlers"])
         if len(v) < 2 and not c["mail"] and c["proto"] < 2:
             return None
         cls = (c["name"][:1] == b"/", b"%" in c["name"], any(b > 127 for b in c["name"]))
@@ -480,14 +526,14 @@ class C10(Check):
         return {"proto": ["tftp", "http", "tftp+file-handler", "http+file-handler"][c["proto"]], "bind": c["bind"],
                 "client_family": "IPv%d" % c["fam"], "pktinfo": c["pktinfo"], "name": c["name"].decode("latin-1"),
                 "mail_mode": c["mail"], "method": c["method"], "headers": c["headers"],
-                "handlers(tag,accepts)": c["handlers"]}
+                "handlers(tag,accepts,result)": c["handlers"]}
 
     def renamed(self, c, **kw):
         d = dict(c, **kw)
         rid = next(self._seq)
         d["name"] = re.sub(rb"id\d+x", b"id%dx" % rid, d["name"])
         d["headers"] = [(k, str(rid) if k == "X-Verif-Id" else v) for k, v in d["headers"]]
-        d["handlers"] = [(re.sub(r"-\d+$", "-%d" % rid, t), a) for t, a in d["handlers"]]
+        d["handlers"] = [(re.sub(r"-\d+$", "-%d" % rid, t), a, k) for t, a, k in d["handlers"]]
         d["rid"] = rid
         return d
 
